@@ -145,7 +145,14 @@ struct JSONUtils {
                             ++offset;
 
                             if ((length - offset) > SizeT{3}) {
-                                SizeT32 code = Digit::HexStringToNumber<SizeT32>((content + offset), SizeT{4});
+                                // Exactly four hex digits: "\ug0e9" is not an escape.
+                                SizeT   hex_offset = offset;
+                                SizeT32 code = Digit::HexStringToNumber<SizeT32>(content, hex_offset, SizeT(offset + SizeT{4}));
+
+                                if (hex_offset != SizeT(offset + SizeT{4})) {
+                                    return 0;
+                                }
+
                                 offset += SizeT{4};
                                 offset2 = offset;
 
@@ -159,7 +166,15 @@ struct JSONUtils {
                                     code = (code ^ 0xD800U) << 10U;
                                     offset += SizeT{2};
 
-                                    code += Digit::HexStringToNumber<SizeT32>((content + offset), SizeT{4}) & 0x3FFU;
+                                    hex_offset = offset;
+                                    const SizeT32 low =
+                                        Digit::HexStringToNumber<SizeT32>(content, hex_offset, SizeT(offset + SizeT{4}));
+
+                                    if (hex_offset != SizeT(offset + SizeT{4})) {
+                                        return 0;
+                                    }
+
+                                    code += (low & 0x3FFU);
                                     code += 0x10000U;
 
                                     Unicode::ToUTF<Char_T>(code, stream);
